@@ -196,6 +196,11 @@ func (ef *c12Effects) classify(e *c12Effect, loopFn *c12Fn, rs *ast.RangeStmt) (
 	if e.rhs == nil {
 		return c12Unk, "the stored value comes from a multi-value expression"
 	}
+	if se, ok := c12StripConv(info, e.rhs).(*ast.SliceExpr); ok && se.High != nil {
+		if z, isConst := constInt(info, se.High); isConst && z == 0 && ef.accumulates(e) == nil {
+			return c12OK, "stores an empty view [:0] (only spare capacity is kept; N6 decides how it may be used)"
+		}
+	}
 	vPer, _ := ef.uses(e, e.rhs, 3)
 	if ef.nilGuarded(e) {
 		if !vPer {
